@@ -180,7 +180,7 @@ def meaningful(line):
         return (fa < 0) != (fb < 0)
     if op == "inv_erf":
         p = F(1)
-        if nan(p) or p == 1.0: return None
+        if nan(p) or abs(p) == 1.0: return None      # +-1 return +-10 with a warning, by design
         return abs(p) < 1.0
     if op == "interp":
         xs, pos = rd_list(t, 1, tokf); nf = int(t[pos]); v = valid_table(xs)
